@@ -9,6 +9,10 @@ fn main() {
         .filter(|n| n.len() == 6 && n.starts_with('c') && n.ends_with(".rs") && n[1..3].chars().all(|c| c.is_ascii_digit()))
         .map(|n| n[..3].to_string())
         .collect();
+    if let Ok(only) = env::var("KV_ONLY") {
+        let keep: Vec<&str> = only.split(',').collect();
+        ids.retain(|i| keep.contains(&i.as_str()));
+    }
     ids.sort();
     let mut out = String::new();
     for id in &ids {
@@ -21,4 +25,5 @@ fn main() {
     out.push_str("]\n}\n");
     fs::write(Path::new(&env::var("OUT_DIR").unwrap()).join("mods.rs"), out).unwrap();
     println!("cargo:rerun-if-changed=src");
+    println!("cargo:rerun-if-env-changed=KV_ONLY");
 }
